@@ -525,6 +525,21 @@ pub fn run_life(case_in: &J, out: &mut Out, ic_build: bool) {
             return;
         }
     };
+    // `dupid`: the rule TEXT defines its first identifier twice (a different definition first).  A YAML
+    // mapping with a repeated key is not a rule: loading fails - and if a loader ever tolerated it, the
+    // definition it evaluates and the one it serialises must be the same one (C14)
+    let mut rendered = rendered;
+    if case_in["dupid"].as_bool().unwrap_or(false) {
+        if let Some(p) = rendered.text.find("detection:\n") {
+            let after = p + "detection:\n".len();
+            if let Some(line) = rendered.text[after..].lines().next() {
+                if line.starts_with("  ") && !line.starts_with("   ") && line.trim_end().ends_with(':') {
+                    let ins = format!("{}\n    zzdup: q\n", line);
+                    rendered.text.insert_str(after, &ins);
+                }
+            }
+        }
+    }
     let loaded = load_text(&rendered.text);
     if again_base.is_some() {
         out.ev(json!({"ev":"load2","via":"again","out":loaded.tag()}));
@@ -637,17 +652,28 @@ pub fn run_life(case_in: &J, out: &mut Out, ic_build: bool) {
                         _ => None,
                     })
                     .collect();
+                // the threads start together (barrier) and walk the documents several times, each in its
+                // own order, so that different documents are being matched at the same moment; every
+                // DISTINCT (document, outcome) a thread saw is recorded
+                let barrier = std::sync::Barrier::new(nthreads);
+                let rounds = if maps.len() <= 8 { 40 } else { 8 };
                 let results: Vec<Vec<(usize, &'static str)>> = std::thread::scope(|s| {
                     let hs: Vec<_> = (0..nthreads)
                         .map(|t| {
                             let obj = &obj;
                             let maps = &maps;
+                            let barrier = &barrier;
                             s.spawn(move || {
-                                let mut v = vec![];
-                                // each thread walks the documents in its own order
-                                for j in 0..maps.len() {
-                                    let (i, m) = maps[(j * (2 * t + 1) + t) % maps.len()];
-                                    v.push((i, matches(obj, m)));
+                                let mut v: Vec<(usize, &'static str)> = vec![];
+                                barrier.wait();
+                                for round in 0..rounds {
+                                    for j in 0..maps.len() {
+                                        let (i, m) = maps[(j * (2 * t + 1) + t + round) % maps.len()];
+                                        let r = (i, matches(obj, m));
+                                        if !v.contains(&r) {
+                                            v.push(r);
+                                        }
+                                    }
                                 }
                                 v
                             })
